@@ -416,11 +416,19 @@ func writeShard(dir, name string, k int, cs []*Case) (int, error) {
 	if err := os.WriteFile(filepath.Join(dir, fmt.Sprintf("%s_%d.v", name, k)), []byte(sb.String()), 0644); err != nil {
 		return 0, err
 	}
-	// certification of the table entries: |exp d - e| <= e 2^-50 + 2^-1074 (chunks of 100 goals per file)
 	cn := "cert_" + name
 	if name == "cases" {
 		cn = "cert"
 	}
+	if err := writeCerts(dir, cn, k, ks); err != nil {
+		return 0, err
+	}
+	return len(ks), nil
+}
+
+
+// certification of the table entries: |exp d - e| <= e 2^-50 + 2^-1074 (chunks of 100 goals per file)
+func writeCerts(dir, cn string, k int, ks []float64) error {
 	for part := 0; part*100 < len(ks); part++ {
 		var cb strings.Builder
 		cb.WriteString("From Coq Require Import Reals List.\nFrom Interval Require Import Tactic.\nImport ListNotations.\nOpen Scope R_scope.\n")
@@ -431,10 +439,10 @@ func writeShard(dir, name string, k int, cs []*Case) (int, error) {
 		}
 		cb.WriteString("Definition M : list nat := [].\nPrint M.\n")
 		if err := os.WriteFile(filepath.Join(dir, fmt.Sprintf("%s_%d_%d.v", cn, k, part)), []byte(cb.String()), 0644); err != nil {
-			return 0, err
+			return err
 		}
 	}
-	return len(ks), nil
+	return nil
 }
 
 // ---------------------------------------------------------------- generators
@@ -687,6 +695,10 @@ func main() {
 	o := ParseFlags()
 	if o.Extra == "hunt" {
 		hunt(o)
+		return
+	}
+	if strings.HasPrefix(o.Extra, "round2") {
+		round2(o)
 		return
 	}
 	if o.Replay != "" {
